@@ -8,6 +8,6 @@ if [ -f bounded/Cargo.toml ]; then (cd bounded && cargo build --release --offlin
 mkdir -p build evidence replay
 # warm the persistent build caches of the C15 harness (cargo-libcnb from /repo and the generated workspace); the check rebuilds incrementally
 if [ -x bounded/target/release/bounded ]; then ./bounded/target/release/bounded c15_package >/dev/null 2>&1 || true; fi
-echo setup-ok
 # warm the compile cache of the literal-macro harness (C09)
 if [ -x bounded/target/release/bounded ]; then ./bounded/target/release/bounded c09_macros >/dev/null 2>&1 || true; fi
+echo setup-ok
